@@ -1,4 +1,3 @@
-import CircuitModel.Spec.C15
-namespace CM.Props.C15
-theorem placeholder : (RP.new 1 1 1).n = 1 := rfl
-end CM.Props.C15
+/- Props/C15.lean — property C15: all theorems live in namespace CM.Props.C15, split over two files. -/
+import CircuitProofs.Props.C15Snapshot
+import CircuitProofs.Props.C15Percentile
